@@ -25,6 +25,7 @@ def check(module, cinit, init, inv, length, timeout=900):
     env = dict(os.environ)
     env.pop("JAVA_TOOL_OPTIONS", None)
     env.setdefault("JVM_ARGS", "-Xmx4g")
+    env["TMPDIR"] = out_dir          # the launcher's `mktemp -d -t SANY...` (java.io.tmpdir) goes with out_dir
     t0 = time.time()
     try:
         p = subprocess.run(cmd, cwd=SPEC, env=env, capture_output=True, text=True, timeout=timeout)
